@@ -840,7 +840,7 @@ func (t *trans) bind(s ast.Stmt) {
 		return
 	case *ast.AssignStmt:
 		if len(x.Lhs) != 1 || len(x.Rhs) != 1 {
-			unsupported("assignment arity")
+			unsupported("assignment arity: %s", exprString(x.Rhs[0]))
 		}
 		if x.Tok == token.DEFINE {
 			id, ok := x.Lhs[0].(*ast.Ident)
